@@ -8,6 +8,7 @@ Specification vocabulary (used by Props/C07.lean):
 * `addExtent c N ξ = c + Σᵢ ξᵢ · Nᵢ`        — state after reaction extents ξ
 -/
 import Mathlib.Analysis.SpecialFunctions.Log.Basic
+import Mathlib.Analysis.SpecialFunctions.Pow.Real
 import Mathlib.Tactic.Ring
 import Mathlib.Tactic.Linarith
 import Mathlib.Tactic.FieldSimp
@@ -19,6 +20,7 @@ open ChemModel
 
 noncomputable instance instHasExpReal : HasExp ℝ := ⟨Real.exp⟩
 noncomputable instance instHasLogReal : HasLog ℝ := ⟨Real.log⟩
+noncomputable instance instHasRPowReal : HasRPow ℝ := ⟨Real.rpow⟩
 
 /-! ## Specification vocabulary -/
 
@@ -639,6 +641,561 @@ theorem numSysLogF_defined {s : EqSystem} (hs : Homogeneous s) (prec : List Bool
       (List.map (fun k => -HasLog.log k) (eqConstants (nonPrecipRids s prec) (eqParamsOf s p) small)) = some fe := hfe
   simp only [hfe', hb]
   exact ⟨_, rfl⟩
+
+/-! ## Row-reduced configurations: linear algebra on lists -/
+
+/-- real dot product `Σⱼ rowⱼ · vⱼ` -/
+noncomputable def dotR (row v : List ℝ) : ℝ := (List.zipWith (· * ·) row v).sum
+
+/-- the linear combination `Σᵢ wᵢ • Aᵢ` of rows of width `n` -/
+noncomputable def lincomb : List ℝ → List (List ℝ) → ℕ → List ℝ
+  | w :: ws, r :: rs, n => List.zipWith (· + ·) (r.map (w * ·)) (lincomb ws rs n)
+  | _, _, n => List.replicate n 0
+
+/-- `(row | β)` is a linear combination of the rows of the augmented system `(A | b)` -/
+def IsRowCombo (A : List (List ℝ)) (b : List ℝ) (n : ℕ) (row : List ℝ) (β : ℝ) : Prop :=
+  ∃ w : List ℝ, row = lincomb w A n ∧ β = dotR w b
+
+/-- **Hypothesis on the external row reducer** (checked per instance by the harness): the augmented systems
+    `(A | b)` and `(A' | b')`, of width `n`, have the same row space — `(A'|b') = P·(A|b)` and `(A|b) = L·(A'|b')`.
+    This is what an invertible row operation followed by dropping zero rows (a reduced row echelon form) gives. -/
+structure RowEquiv (n : ℕ) (A : List (List ℝ)) (b : List ℝ) (A' : List (List ℝ)) (b' : List ℝ) : Prop where
+  len : A.length = b.length
+  len' : A'.length = b'.length
+  width : ∀ r ∈ A, r.length = n
+  width' : ∀ r ∈ A', r.length = n
+  fwd : ∀ rb ∈ A'.zip b', IsRowCombo A b n rb.1 rb.2
+  bwd : ∀ rb ∈ A.zip b, IsRowCombo A' b' n rb.1 rb.2
+
+/-- `y` solves the linear system `A·y = b` (row by row) -/
+def Solves (A : List (List ℝ)) (b y : List ℝ) : Prop := ∀ rb ∈ A.zip b, dotR rb.1 y = rb.2
+
+theorem lincomb_length (w : List ℝ) (A : List (List ℝ)) (n : ℕ) (h : ∀ r ∈ A, r.length = n) :
+    (lincomb w A n).length = n := by
+  induction w generalizing A with
+  | nil => simp [lincomb]
+  | cons x ws ih =>
+    cases A with
+    | nil => simp [lincomb]
+    | cons r rs =>
+      simp only [lincomb, List.length_zipWith, List.length_map]
+      rw [ih rs (fun r' hr' => h r' (List.mem_cons_of_mem _ hr')), h r List.mem_cons_self]
+      simp
+
+theorem dotR_add (u v y : List ℝ) (h : u.length = v.length) :
+    dotR (List.zipWith (· + ·) u v) y = dotR u y + dotR v y := by
+  induction u generalizing v y with
+  | nil =>
+    have : v = [] := List.eq_nil_of_length_eq_zero (by simpa using h.symm)
+    simp [dotR, this]
+  | cons a as ih =>
+    cases v with
+    | nil => simp at h
+    | cons b bs =>
+      cases y with
+      | nil => simp [dotR]
+      | cons c cs =>
+        have := ih bs cs (by simpa using h)
+        simp only [dotR] at this ⊢
+        simp only [List.zipWith_cons_cons, List.sum_cons, this]
+        ring
+
+theorem dotR_smul (w : ℝ) (r y : List ℝ) : dotR (r.map (w * ·)) y = w * dotR r y := by
+  induction r generalizing y with
+  | nil => simp [dotR]
+  | cons a as ih =>
+    cases y with
+    | nil => simp [dotR]
+    | cons c cs =>
+      have := ih cs
+      simp only [dotR] at this ⊢
+      simp only [List.map_cons, List.zipWith_cons_cons, List.sum_cons, this]
+      ring
+
+theorem dotR_replicate_zero (n : ℕ) (y : List ℝ) : dotR (List.replicate n 0) y = 0 := by
+  induction n generalizing y with
+  | zero => simp [dotR]
+  | succ k ih =>
+    cases y with
+    | nil => simp [dotR]
+    | cons c cs =>
+      have := ih cs
+      simp only [dotR] at this ⊢
+      simp [List.replicate_succ, this]
+
+theorem dotR_lincomb (w : List ℝ) (A : List (List ℝ)) (n : ℕ) (y : List ℝ) (h : ∀ r ∈ A, r.length = n) :
+    dotR (lincomb w A n) y = dotR w (A.map fun r => dotR r y) := by
+  induction w generalizing A with
+  | nil =>
+    have : lincomb [] A n = List.replicate n 0 := by simp [lincomb]
+    rw [this, dotR_replicate_zero]; simp [dotR]
+  | cons x ws ih =>
+    cases A with
+    | nil =>
+      have : lincomb (x :: ws) [] n = List.replicate n 0 := by simp [lincomb]
+      rw [this, dotR_replicate_zero]; simp [dotR]
+    | cons r rs =>
+      have hrs : ∀ r' ∈ rs, r'.length = n := fun r' hr' => h r' (List.mem_cons_of_mem _ hr')
+      rw [lincomb, dotR_add _ _ _ (by rw [List.length_map, lincomb_length ws rs n hrs, h r List.mem_cons_self]),
+        dotR_smul, ih rs hrs]
+      simp [dotR]
+
+theorem map_dot_of_solves {A : List (List ℝ)} {b y : List ℝ} (hlen : A.length = b.length) (h : Solves A b y) :
+    (A.map fun r => dotR r y) = b := by
+  induction A generalizing b with
+  | nil =>
+    have : b = [] := List.eq_nil_of_length_eq_zero (by simpa using hlen.symm)
+    simp [this]
+  | cons r rs ih =>
+    cases b with
+    | nil => simp at hlen
+    | cons t ts =>
+      have h1 : dotR r y = t := h (r, t) (by simp)
+      have h2 : Solves rs ts y := fun rb hrb => h rb (by simp [List.zip_cons_cons, hrb])
+      rw [List.map_cons, h1, ih (by simpa using hlen) h2]
+
+theorem combo_sound {A : List (List ℝ)} {b y row : List ℝ} {β : ℝ} {n : ℕ} (hlen : A.length = b.length)
+    (hw : ∀ r ∈ A, r.length = n) (hc : IsRowCombo A b n row β) (h : Solves A b y) : dotR row y = β := by
+  obtain ⟨w, rfl, rfl⟩ := hc
+  rw [dotR_lincomb w A n y hw, map_dot_of_solves hlen h]
+
+/-- row-equivalent systems have the same solutions -/
+theorem rowEquiv_solves_iff {n : ℕ} {A A' : List (List ℝ)} {b b' : List ℝ} (h : RowEquiv n A b A' b') (y : List ℝ) :
+    Solves A' b' y ↔ Solves A b y :=
+  ⟨fun hs rb hrb => combo_sound h.len' h.width' (h.bwd rb hrb) hs,
+   fun hs rb hrb => combo_sound h.len h.width (h.fwd rb hrb) hs⟩
+
+/-! ## Row-reduced configurations: the model over ℝ -/
+
+theorem dotA_real (row x : List ℝ) : dotA row x = dotR row x := by
+  unfold dotA dotR
+  rw [foldl_add_real, zero_real, zero_add]
+
+theorem intRow_real (row : List ℤ) : (intRow row : List ℝ) = row.map fun (c : ℤ) => (c : ℝ) := by
+  unfold intRow
+  apply List.map_congr_left
+  intro c _
+  exact ofInt_real c
+
+theorem total_eq_dotR (row : List ℤ) (y : List ℝ) : total row y = dotR (intRow row) y := by
+  rw [intRow_real, total, dotR, List.zipWith_map_left]
+
+theorem vecDotVec_dotR {row v : List ℝ} {d : ℝ} (h : vecDotVec row v = some d) : d = dotR row v := by
+  cases row with
+  | nil => simp [vecDotVec] at h
+  | cons a as =>
+    cases v with
+    | nil => simp [vecDotVec] at h
+    | cons b bs =>
+      simp only [vecDotVec, Option.some.injEq] at h
+      rw [← h, foldl_add_real, dotR, List.zipWith_cons_cons, List.sum_cons]
+
+theorem matDotVecTerm_dotR {M : List (List ℝ)} {y ts fe : List ℝ} (h : matDotVecTerm M y ts = some fe) :
+    fe = List.zipWith (fun row t => dotR row y + t) M ts := by
+  induction M generalizing ts fe with
+  | nil => simp [matDotVecTerm] at h; simp [← h]
+  | cons row rest ih =>
+    cases ts with
+    | nil => simp [matDotVecTerm] at h; subst h; simp
+    | cons t ts =>
+      simp only [matDotVecTerm] at h
+      split at h
+      · exact absurd h (by simp)
+      · rename_i d hd
+        split at h
+        · exact absurd h (by simp)
+        · rename_i ds hds
+          simp only [Option.some.injEq] at h
+          rw [← h, List.zipWith_cons_cons, vecDotVec_dotR hd, ih hds]
+
+/-- for positive bases, `∏ cⱼ ^ aⱼ = exp(Σ aⱼ ln cⱼ)` (real exponents) -/
+theorem prodPowRowR_real (c row : List ℝ) (hc : ∀ x ∈ c, 0 < x) :
+    prodPowRowR c row = Real.exp (dotR row (c.map Real.log)) := by
+  unfold prodPowRowR
+  rw [foldl_mul_real, one_real, one_mul]
+  induction c generalizing row with
+  | nil => simp [dotR]
+  | cons x xs ih =>
+    cases row with
+    | nil => simp [dotR]
+    | cons a as =>
+      have hx : 0 < x := hc x List.mem_cons_self
+      have := ih as (fun z hz => hc z (List.mem_cons_of_mem _ hz))
+      simp only [dotR] at this ⊢
+      simp only [List.zipWith_cons_cons, List.prod_cons, List.map_cons, List.sum_cons, this, Real.exp_add]
+      congr 1
+      show Real.rpow x a = _
+      rw [show Real.rpow x a = x ^ a from rfl, Real.rpow_def_of_pos hx, mul_comm]
+
+/-- zero set of a block `[dotR row y + (-(log (exp β)))]` / `[dotR row x - β]` in terms of `Solves` -/
+theorem logBlock_zero_iff (A' : List (List ℝ)) (b' y : List ℝ) :
+    (∀ x ∈ List.zipWith (fun row t => dotR row y + t) A' ((b'.map Real.exp).map fun k => -Real.log k), x = 0) ↔
+      Solves A' b' y := by
+  rw [forall_zipWith, List.map_map, zip_map_right _ A' b' (fun row t => dotR row y + t = 0)]
+  unfold Solves
+  constructor
+  · intro h rb hrb
+    have := h rb hrb
+    simp only [Function.comp, Real.log_exp] at this
+    linarith
+  · intro h rb hrb
+    simp only [Function.comp, Real.log_exp]
+    rw [h rb hrb]; ring
+
+theorem subBlock_zero_iff (A' : List (List ℝ)) (b' x : List ℝ) :
+    (∀ v ∈ List.zipWith (· - ·) (A'.map (dotA · x)) b', v = 0) ↔ Solves A' b' x := by
+  rw [forall_zipWith, zip_map_left (dotA · x) A' b' (fun q t => q - t = 0)]
+  unfold Solves
+  constructor
+  · intro h rb hrb
+    have := h rb hrb
+    rw [dotA_real] at this
+    linarith
+  · intro h rb hrb
+    rw [dotA_real, h rb hrb]; ring
+
+theorem linBlockR_zero_iff (A' : List (List ℝ)) (b' c : List ℝ) (hc : ∀ x ∈ c, 0 < x) :
+    (∀ x ∈ List.zipWith equilResidual (A'.map (prodPowRowR c)) (b'.map Real.exp), x = 0) ↔
+      Solves A' b' (c.map Real.log) := by
+  rw [forall_zipWith, zip_map_left (prodPowRowR c) A' _ (fun q k => equilResidual q k = 0),
+    zip_map_right Real.exp A' b' (fun row k => equilResidual (prodPowRowR c row) k = 0)]
+  unfold Solves
+  constructor
+  · intro h rb hrb
+    have := h rb hrb
+    rw [equilResidual_eq_zero_iff, prodPowRowR_real c _ hc] at this
+    exact Real.exp_injective this
+  · intro h rb hrb
+    rw [equilResidual_eq_zero_iff, prodPowRowR_real c _ hc, h rb hrb]
+
+/-- the un-reduced log-linear system `A·y = ln K` says that the quotients of `exp y` equal the constants -/
+theorem solves_intMat_log_iff (A : List (List ℤ)) (ks y : List ℝ) (hks : ∀ k ∈ ks, 0 < k) :
+    Solves (intMat A) (ks.map Real.log) y ↔ ∀ rk ∈ A.zip ks, quotient (y.map Real.exp) rk.1 = rk.2 := by
+  unfold Solves intMat
+  rw [zip_map_left intRow A _ (fun r t => dotR r y = t), zip_map_right Real.log A ks (fun r t => dotR (intRow r) y = t)]
+  constructor
+  · intro h rk hrk
+    have := h rk hrk
+    rw [← total_eq_dotR] at this
+    exact (log_row_zero_iff rk.1 y (hks rk.2 (List.of_mem_zip hrk).2)).mp (by rw [this]; ring)
+  · intro h rk hrk
+    have := (log_row_zero_iff rk.1 y (hks rk.2 (List.of_mem_zip hrk).2)).mpr (h rk hrk)
+    rw [← total_eq_dotR]
+    linarith
+
+/-- the un-reduced conservation system `B·x = B·c₀` -/
+theorem solves_intMat_total_iff (B : List (List ℤ)) (c0 x : List ℝ) :
+    Solves (intMat B) (B.map fun row => total row c0) x ↔ ∀ brow ∈ B, total brow x = total brow c0 := by
+  unfold Solves intMat
+  rw [zip_map_left intRow B _ (fun r t => dotR r x = t),
+    zip_map_right_self (fun row => total row c0) B (fun r t => dotR (intRow r) x = t)]
+  constructor
+  · intro h brow hb
+    rw [total_eq_dotR]; exact h brow hb
+  · intro h brow hb
+    rw [← total_eq_dotR]; exact h brow hb
+
+theorem map_exp_log {c : List ℝ} (hc : ∀ x ∈ c, 0 < x) : (c.map Real.log).map Real.exp = c := by
+  rw [List.map_map]
+  conv_rhs => rw [← List.map_id c]
+  apply List.map_congr_left
+  intro x hx
+  simp [Real.exp_log (hc x hx)]
+
+/-! ## Row-reduced configurations: unfolding and block theorems -/
+
+/-- the conservation right-hand side `B·c₀` over ℝ -/
+noncomputable def totalsOf (s : EqSystem) (p : List ℝ) : List ℝ := (compMat s).map fun row => total row (initConcsOf s p)
+
+theorem preservBlock_ok {s : EqSystem} {rp : Bool} {redP : Reduced ℝ} {x p fp : List ℝ}
+    (h : preservBlock s rp redP x p = .ok fp) :
+    fp = if rp then List.zipWith (· - ·) (redP.rA.map (dotA · x)) redP.rb
+         else List.zipWith (fun row v => total row x - v) (compMat s) (totalsOf s p) := by
+  unfold preservBlock at h
+  cases hb : matDotVec (intMat (compositionBalanceVectors s).1) (initConcsOf s p) with
+  | none => simp [hb] at h
+  | some b =>
+    simp only [hb, Except.ok.injEq] at h
+    rw [← h]
+    cases rp with
+    | true => rfl
+    | false =>
+      simp only [Bool.false_eq_true, ↓reduceIte]
+      rw [linearExprs_real, matDotVec_real hb]
+      rfl
+
+/-- conservation block in either configuration: zero iff the totals agree -/
+theorem preserv_zero_iff {s : EqSystem} {rp : Bool} {redP : Reduced ℝ} {x p fp : List ℝ}
+    (h : preservBlock s rp redP x p = .ok fp)
+    (hred : rp = true → RowEquiv s.ns (intMat (compMat s)) (totalsOf s p) redP.rA redP.rb) :
+    (∀ v ∈ fp, v = 0) ↔ ∀ brow ∈ compMat s, total brow x = total brow (initConcsOf s p) := by
+  rw [preservBlock_ok h]
+  cases rp with
+  | true =>
+    simp only [↓reduceIte]
+    rw [subBlock_zero_iff, rowEquiv_solves_iff (hred rfl), totalsOf, solves_intMat_total_iff]
+  | false =>
+    simp only [Bool.false_eq_true, ↓reduceIte, totalsOf]
+    rw [forall_zipWith, zip_map_right_self (fun row => total row (initConcsOf s p)) (compMat s)
+      (fun row v => total row x - v = 0)]
+    exact ⟨fun h brow hb => sub_eq_zero.mp (h brow hb), fun h brow hb => sub_eq_zero.mpr (h brow hb)⟩
+
+theorem numSysLogCfgF_ok {s : EqSystem} {prec : List Bool} {small : ℝ} {re rp : Bool} {redE redP : Reduced ℝ}
+    {y p r : List ℝ} (h : numSysLogCfgF s prec small re rp redE redP y p = .ok r) :
+    ∃ A fp, stoichs s (nonPrecipRids s prec) = .ok A ∧ shapeOk s y p = true ∧
+      preservBlock s rp redP (y.map Real.exp) p = .ok fp ∧
+      r = (if re then List.zipWith (fun row t => dotR row y + t) redE.rA
+                        ((redE.rb.map Real.exp).map fun k => -Real.log k)
+           else List.zipWith (fun row t => total row y + t) A ((ksOf s prec small p).map fun k => -Real.log k))
+          ++ fp := by
+  unfold numSysLogCfgF at h
+  by_cases hshape : shapeOk s y p = true
+  · simp only [hshape, Bool.not_true, Bool.false_eq_true, ↓reduceIte] at h
+    cases hA : stoichs s (nonPrecipRids s prec) with
+    | error e => simp [hA] at h
+    | ok A =>
+      simp only [hA] at h
+      split at h
+      · exact absurd h (by simp)
+      · rename_i fe hfe
+        cases hp : preservBlock s rp redP (List.map HasExp.exp y) p with
+        | error e => simp [hp] at h
+        | ok fp =>
+          simp only [hp, Except.ok.injEq] at h
+          refine ⟨A, fp, rfl, hshape, rfl, ?_⟩
+          rw [← h]
+          congr 1
+          cases re with
+          | true =>
+            simp only [↓reduceIte, stoichsConstantsRref] at hfe ⊢
+            exact matDotVecTerm_dotR hfe
+          | false =>
+            simp only [Bool.false_eq_true, ↓reduceIte] at hfe ⊢
+            exact matDotVecTerm_real hfe
+  · simp [hshape] at h
+
+theorem numSysLinCfgF_ok {s : EqSystem} {prec : List Bool} {small : ℝ} {re rp : Bool} {redE redP : Reduced ℝ}
+    {y p r : List ℝ} (h : numSysLinCfgF s prec small re rp redE redP y p = .ok r) :
+    ∃ A fp, stoichs s (nonPrecipRids s prec) = .ok A ∧ shapeOk s y p = true ∧
+      preservBlock s rp redP y p = .ok fp ∧ (re = false → A.any (zeroDiv y) = false) ∧
+      r = (if re then List.zipWith equilResidual (redE.rA.map (prodPowRowR y)) (redE.rb.map Real.exp)
+           else List.zipWith equilResidual (A.map (prodPowRow y)) (ksOf s prec small p))
+          ++ fp := by
+  unfold numSysLinCfgF at h
+  by_cases hshape : shapeOk s y p = true
+  · simp only [hshape, Bool.not_true, Bool.false_eq_true, ↓reduceIte] at h
+    by_cases hempty : s.rxns.isEmpty = true
+    · simp [hempty] at h
+    simp only [hempty, Bool.false_eq_true, ↓reduceIte] at h
+    cases hA : stoichs s (nonPrecipRids s prec) with
+    | error e => simp [hA] at h
+    | ok A =>
+      simp only [hA] at h
+      cases re with
+      | true =>
+        simp only [↓reduceIte] at h
+        cases hp : preservBlock s rp redP y p with
+        | error e => simp [hp] at h
+        | ok fp =>
+          simp only [hp, Except.ok.injEq] at h
+          exact ⟨A, fp, rfl, hshape, rfl, by simp, by rw [← h]; rfl⟩
+      | false =>
+        simp only [Bool.false_eq_true, ↓reduceIte] at h
+        unfold prodPow at h
+        by_cases hz : A.any (zeroDiv y) = true
+        · simp [hz] at h
+        · simp only [hz, Bool.false_eq_true, ↓reduceIte] at h
+          cases hp : preservBlock s rp redP y p with
+          | error e => simp [hp] at h
+          | ok fp =>
+            simp only [hp, Except.ok.injEq] at h
+            exact ⟨A, fp, rfl, hshape, rfl, fun _ => by simpa using hz, by rw [← h]; rfl⟩
+  · simp [hshape] at h
+
+/-- equilibrium block of the logarithmic formulation, reduced or not -/
+theorem equilLog_zero_iff {n : ℕ} (A : List (List ℤ)) (ks y : List ℝ) (re : Bool) (redE : Reduced ℝ)
+    (hks : ∀ k ∈ ks, 0 < k)
+    (hred : re = true → RowEquiv n (intMat A) (ks.map Real.log) redE.rA redE.rb) :
+    (∀ x ∈ (if re then List.zipWith (fun row t => dotR row y + t) redE.rA
+                        ((redE.rb.map Real.exp).map fun k => -Real.log k)
+            else List.zipWith (fun row t => total row y + t) A (ks.map fun k => -Real.log k)), x = 0) ↔
+      ∀ rk ∈ A.zip ks, quotient (y.map Real.exp) rk.1 = rk.2 := by
+  cases re with
+  | true =>
+    simp only [↓reduceIte]
+    rw [logBlock_zero_iff, rowEquiv_solves_iff (hred rfl), solves_intMat_log_iff A ks y hks]
+  | false =>
+    simp only [Bool.false_eq_true, ↓reduceIte]
+    rw [forall_zipWith, zip_map_right (fun k => -Real.log k) A ks (fun row t => total row y + t = 0)]
+    exact ⟨fun h rk hrk => (log_row_zero_iff rk.1 y (hks rk.2 (List.of_mem_zip hrk).2)).mp (h rk hrk),
+           fun h rk hrk => (log_row_zero_iff rk.1 y (hks rk.2 (List.of_mem_zip hrk).2)).mpr (h rk hrk)⟩
+
+/-- equilibrium block of the linear formulation at a positive state, reduced or not -/
+theorem equilLin_zero_iff {n : ℕ} (A : List (List ℤ)) (ks c : List ℝ) (re : Bool) (redE : Reduced ℝ)
+    (hks : re = true → ∀ k ∈ ks, 0 < k) (hc : re = true → ∀ x ∈ c, 0 < x)
+    (hred : re = true → RowEquiv n (intMat A) (ks.map Real.log) redE.rA redE.rb) :
+    (∀ x ∈ (if re then List.zipWith equilResidual (redE.rA.map (prodPowRowR c)) (redE.rb.map Real.exp)
+            else List.zipWith equilResidual (A.map (prodPowRow c)) ks), x = 0) ↔
+      ∀ rk ∈ A.zip ks, quotient c rk.1 = rk.2 := by
+  cases re with
+  | true =>
+    simp only [↓reduceIte]
+    rw [linBlockR_zero_iff _ _ c (hc rfl), rowEquiv_solves_iff (hred rfl),
+      solves_intMat_log_iff A ks _ (hks rfl), map_exp_log (hc rfl)]
+  | false =>
+    simp only [Bool.false_eq_true, ↓reduceIte]
+    rw [forall_zipWith, zip_map_left (prodPowRow c) A ks (fun q k => equilResidual q k = 0)]
+    constructor
+    · intro h rk hrk
+      have := h rk hrk
+      rwa [equilResidual_eq_zero_iff, prodPowRow_real] at this
+    · intro h rk hrk
+      rw [equilResidual_eq_zero_iff, prodPowRow_real]
+      exact h rk hrk
+
+/-! ## `upper_conc_bounds` is defined when every species contains an element -/
+
+/-- the species has a non-charge composition key and no zero count among its non-charge keys
+    (otherwise `upper_conc_bounds` yields `inf`, resp. divides by zero) -/
+def HasElement (sp : Species) : Prop :=
+  (sp.comp.filter fun kv => kv.1 != 0) ≠ [] ∧ ∀ kv ∈ sp.comp.filter (fun kv => kv.1 != 0), kv.2 ≠ 0
+
+theorem mapM_ok_of_forall {β γ : Type} (f : β → Except String γ) (l : List β) (h : ∀ a ∈ l, ∃ b, f a = .ok b) :
+    ∃ m, l.mapM f = .ok m ∧ m.length = l.length := by
+  induction l with
+  | nil => exact ⟨[], rfl, rfl⟩
+  | cons a as ih =>
+    obtain ⟨b, hb⟩ := h a List.mem_cons_self
+    obtain ⟨m, hm, hl⟩ := ih (fun x hx => h x (List.mem_cons_of_mem _ hx))
+    refine ⟨b :: m, ?_, by simp [hl]⟩
+    rw [List.mapM_cons, hb, hm]
+    rfl
+
+theorem mapM_ok_length {β γ : Type} (f : β → Except String γ) (l : List β) (m : List γ) (h : l.mapM f = .ok m) :
+    m.length = l.length := by
+  induction l generalizing m with
+  | nil => simp [List.mapM_nil, pure, Except.pure] at h; simp [← h]
+  | cons a as ih =>
+    rw [List.mapM_cons] at h
+    cases hfa : f a with
+    | error e => simp [hfa, bind, Except.bind] at h
+    | ok b =>
+      cases hrest : as.mapM f with
+      | error e => simp [hfa, hrest, bind, Except.bind] at h
+      | ok ms =>
+        simp [hfa, hrest, bind, Except.bind, pure, Except.pure] at h
+        rw [← h, List.length_cons, List.length_cons, ih ms hrest]
+
+theorem upperConcBounds_defined (s : EqSystem) (c0 : List ℝ) (h : ∀ kv ∈ s.substances, HasElement kv.2) :
+    ∃ m, upperConcBounds s c0 = .ok m ∧ m.length = s.ns := by
+  have key : ∀ (f : Species → Except String ℝ), (∀ a ∈ s.substances.map (·.2), ∃ b, f a = .ok b) →
+      ∃ m, (s.substances.map (·.2)).mapM f = .ok m ∧ m.length = s.ns := by
+    intro f hf
+    obtain ⟨m, hm, hl⟩ := mapM_ok_of_forall f _ hf
+    exact ⟨m, hm, by simpa [EqSystem.ns] using hl⟩
+  unfold upperConcBounds
+  dsimp only
+  apply key
+  intro sp hsp
+  simp only [List.mem_map] at hsp
+  obtain ⟨kv, hkv, rfl⟩ := hsp
+  obtain ⟨hne, hnz⟩ := h kv hkv
+  have hany : (kv.2.comp.filter fun kv => kv.1 != 0).any (fun kv => kv.2 == 0) = false := by
+    rw [List.any_eq_false]
+    intro x hx
+    simpa using hnz x hx
+  simp only [hany, Bool.false_eq_true, ↓reduceIte]
+  cases hk : kv.2.comp.filter fun kv => kv.1 != 0 with
+  | nil => exact absurd hk hne
+  | cons a as => exact ⟨_, rfl⟩
+
+theorem numSysLinRelF_defined {s : EqSystem} (hs : Homogeneous s) (hel : ∀ kv ∈ s.substances, HasElement kv.2)
+    (prec : List Bool) (small : ℝ) {y p : List ℝ} (hshape : shapeOk s y p = true) (hnr : 0 < s.nr) :
+    ∃ m, upperConcBounds s (initConcsOf s p) = .ok m ∧
+      ((∀ x ∈ List.zipWith (· * ·) m y, x ≠ 0) → ∃ r, numSysLinRelF s prec small y p = .ok r) := by
+  obtain ⟨m, hm, hl⟩ := upperConcBounds_defined s (initConcsOf s p) hel
+  refine ⟨m, hm, fun hy => ?_⟩
+  have hsh := hshape
+  simp only [shapeOk, Bool.and_eq_true, beq_iff_eq] at hsh
+  have hshape' : shapeOk s (List.zipWith (· * ·) m y) p = true := by
+    simp [shapeOk, hl, hsh.1, hsh.2]
+  obtain ⟨r, hr⟩ := numSysLinF_defined hs prec small hshape' hnr hy
+  refine ⟨r, ?_⟩
+  unfold numSysLinRelF
+  simp only [hshape, Bool.not_true, Bool.false_eq_true, ↓reduceIte, hm, hr]
+
+/-! ## The solver's parameter vector carries the reactions' own constants -/
+
+theorem solverParams_split (s : EqSystem) (c0 Ks : List ℝ) (h : c0.length = s.ns) :
+    initConcsOf s (solverParams c0 Ks) = c0 ∧ eqParamsOf s (solverParams c0 Ks) = Ks := by
+  unfold solverParams eqConstantsDefault initConcsOf eqParamsOf
+  rw [eqConstants_nil]
+  constructor
+  · rw [← h]; simp
+  · rw [← h]; simp
+
+/-- a reaction whose (row | constant) is a combination of the other rows adds no independent equation -/
+theorem dependent_row_redundant {A : List (List ℝ)} {b : List ℝ} {n : ℕ} {row : List ℝ} {β : ℝ}
+    (hlen : A.length = b.length) (hw : ∀ r ∈ A, r.length = n) (hc : IsRowCombo A b n row β) (y : List ℝ) :
+    Solves (row :: A) (β :: b) y ↔ Solves A b y := by
+  constructor
+  · intro h rb hrb
+    exact h rb (by simp [List.zip_cons_cons, hrb])
+  · intro h rb hrb
+    simp only [List.zip_cons_cons, List.mem_cons] at hrb
+    rcases hrb with rfl | hrb
+    · exact combo_sound hlen hw hc h
+    · exact h rb hrb
+
+/-! ## Consistency of the configurable model with the plain one; definedness -/
+
+/-- with both flags off the configurable model is the plain one (so `lin_zero_iff` etc. are the `(False, False)` case) -/
+theorem cfg_false_false_eq (s : EqSystem) (prec : List Bool) (small : ℝ) (redE redP : Reduced ℝ) (y p : List ℝ) :
+    numSysLinCfgF s prec small false false redE redP y p = numSysLinF s prec small y p := by
+  unfold numSysLinCfgF numSysLinF preservBlock
+  by_cases hshape : shapeOk s y p = true <;> by_cases hempty : s.rxns.isEmpty = true <;>
+    simp only [hshape, hempty, Bool.not_true, Bool.not_false, Bool.false_eq_true, ↓reduceIte]
+  all_goals
+    cases stoichs s (nonPrecipRids s prec) with
+    | error e => rfl
+    | ok A =>
+      dsimp only
+      cases prodPow y A with
+      | error e => rfl
+      | ok qs =>
+        dsimp only
+        cases matDotVec (intMat (compositionBalanceVectors s).1) (initConcsOf s p) <;> rfl
+
+
+theorem preservBlock_defined (s : EqSystem) (rp : Bool) (redP : Reduced ℝ) (x : List ℝ) {y p : List ℝ}
+    (hshape : shapeOk s y p = true) : ∃ fp, preservBlock s rp redP x p = .ok fp := by
+  obtain ⟨b, hb⟩ := matDotVec_compMat_isSome s hshape
+  unfold compMat at hb
+  unfold preservBlock
+  simp only [hb]
+  exact ⟨_, rfl⟩
+
+theorem numSysLinCfgF_defined {s : EqSystem} (hs : Homogeneous s) (prec : List Bool) (small : ℝ) (re rp : Bool)
+    (redE redP : Reduced ℝ) {y p : List ℝ} (hshape : shapeOk s y p = true) (hnr : 0 < s.nr)
+    (hy : re = false → ∀ x ∈ y, x ≠ 0) : ∃ r, numSysLinCfgF s prec small re rp redE redP y p = .ok r := by
+  obtain ⟨fp, hfp⟩ := preservBlock_defined s rp redP y hshape
+  have hempty : s.rxns.isEmpty = false := by
+    cases hr : s.rxns with
+    | nil => simp [EqSystem.nr, hr] at hnr
+    | cons a as => rfl
+  unfold numSysLinCfgF
+  simp only [hshape, Bool.not_true, Bool.false_eq_true, ↓reduceIte, hempty, stoichs_homog hs]
+  cases re with
+  | true =>
+    simp only [↓reduceIte, hfp]
+    exact ⟨_, rfl⟩
+  | false =>
+    have hz : (netStoichs s).any (zeroDiv y) = false := by
+      rw [List.any_eq_false]
+      intro row _
+      simp [zeroDiv_false_of_ne_zero y row (hy rfl)]
+    simp only [Bool.false_eq_true, ↓reduceIte, prodPow, hz, hfp]
+    exact ⟨_, rfl⟩
 
 /-! ## Row operations -/
 
